@@ -211,7 +211,7 @@ DS_ATTR = {"FIND": "Identifier", "FINDREPO": "Identifier", "GET": "Identifier", 
            "NSET": "AttributeList", "NACTION": "ActionReply", "NCREATE": "AttributeList", "NCREATE0": "AttributeList", "NEVENT": "EventReply"}
 
 
-def execute(svc: str, script: list[dict], ts=IMPL) -> dict:
+def execute(svc: str, script: list[dict], ts=IMPL, keep_rig=False) -> dict:
     run = Run(svc, script)
     req, event = _request(svc)
     sop = getattr(req, "AffectedSOPClassUID", None) or getattr(req, "RequestedSOPClassUID", None)
@@ -279,7 +279,8 @@ def execute(svc: str, script: list[dict], ts=IMPL) -> dict:
         exc = f"{type(e).__name__}: {e}"
     # "aborted": the handler itself aborted/released; "selfabort": pynetdicom aborted on its own
     fin = "aborted" if run.handler_aborted else "selfabort" if (a.is_aborted or a.is_released or rig.aborts or rig.released) else "escaped" if exc else "final"
-    return {"svc": svc, "script": script, "rsp": out, "fin": fin, "exc": exc or "", "mid": MSG_ID, "ctx": CTX,
+    res = {"rig": rig} if keep_rig else {}
+    return res | {"svc": svc, "script": script, "rsp": out, "fin": fin, "exc": exc or "", "mid": MSG_ID, "ctx": CTX,
             "stores": [str(getattr(d, "SOPInstanceUID", "")) for d in run.stores],
             "stores_same": all(_same_store(d, run) for d in run.stores),
             "failed_expected": sorted(u for u, s in run.sub_by_uid.items() if s in ("F", "X") and u in {str(getattr(d, "SOPInstanceUID", "")) for d in run.stores}),
